@@ -1064,10 +1064,15 @@ class PyCdlib:
                                                 new_record.rock_ridge.bytes_to_skip,
                                                 True, new_record.file_identifier())
                     cdfp.seek(orig_pos)
-                    block = self.pvd.track_rr_ce_entry(ce_record.bl_cont_area,
-                                                       ce_record.offset_cont_area,
-                                                       ce_record.len_cont_area)
-                    new_record.rock_ridge.update_ce_block(block)
+                    # The continuation area of the root directory's 'dot'
+                    # record (which holds the ER entry) always gets a sector
+                    # of its own when extents are assigned, so it must not be
+                    # tracked as part of a shared continuation block.
+                    if not (dir_record.is_root and new_record.is_dot()):
+                        block = self.pvd.track_rr_ce_entry(ce_record.bl_cont_area,
+                                                           ce_record.offset_cont_area,
+                                                           ce_record.len_cont_area)
+                        new_record.rock_ridge.update_ce_block(block)
                     # The continuation area may hold the entries that tell us
                     # which version of Rock Ridge this is.
                     rr = new_record.rock_ridge.rr_version
